@@ -158,6 +158,12 @@ func verifOthersNotDebited(u *verifU, before, after *verifSnap, sender types.Add
 // who pays in gasCoin) and asserts the cross-cutting properties.
 // typePrice is the price-table entry of the transaction's type (nil: skip C27).
 func verifDeliverChecked(u *verifU, tx *Transaction, raw []byte, sender types.Address, nonce0 uint64) (Response, *verifSnap, *verifSnap) {
+	return verifDeliverCheckedFee(u, tx, raw, sender, nonce0, tx.GasCoin)
+}
+
+// verifDeliverCheckedFee: feeCoin is the coin the fee is paid in (the gas coin,
+// or the coin being sold for the sell-all types).
+func verifDeliverCheckedFee(u *verifU, tx *Transaction, raw []byte, sender types.Address, nonce0 uint64, feeCoin types.CoinID) (Response, *verifSnap, *verifSnap) {
 	before := verifSnapshot(u)
 	rc := u.check(raw)
 	mid := verifSnapshot(u)
@@ -177,7 +183,7 @@ func verifDeliverChecked(u *verifU, tx *Transaction, raw []byte, sender types.Ad
 		verifOthersNotDebited(u, before, after, sender)
 	} else {
 		verifAssert("C03:fail=>nonce-unchanged", n1 == nonce0)
-		verifFailedFrame(u, before, after, sender, tx.GasCoin)
+		verifFailedFrame(u, before, after, sender, feeCoin)
 	}
 	verifNote("code", uint64(resp.Code))
 	return resp, before, after
